@@ -30,8 +30,10 @@ def _executions(path):
 
 def _inrange_key(cfg, r):
     """coarse label only used to count distinct kinds of evidence (never for a verdict)"""
+    if cfg["backing"] == "multi":
+        return ("multi", cfg["K"], tuple(cfg["kinds"]), r["e"], bool(r.get("err")))
     return (cfg["backing"], cfg["byView"], cfg["maxTof"] > cfg["minTof"], cfg["type"], cfg["big"], cfg["fresh"], cfg["off"] > 0,
-            r["e"], bool(r.get("err")))
+            r["e"], bool(r.get("err")), r.get("w", 1))
 
 
 def run(ctx):
@@ -41,7 +43,7 @@ def run(ctx):
     cfg = "MC_ProjDataStore" if q else "MC_ProjDataStore_thorough"
     r = lib.tlc("MC_ProjDataStore", cfg=cfg, workers=workers, timeout=1100, heap="6g" if q else "12g", coverage=True)
     ctx.mc_must_pass(r, "layout theorems T1-T3 + coherence of every short history (%s)" % cfg, "MC_ProjDataStore")
-    for act in ("SetBin", "SetSino", "SetView", "SetSegV", "SetSegS", "SetRel", "Fill", "FillFrom"):
+    for act in ("SetBin", "SetSino", "SetView", "SetSegV", "SetSegS", "SetRel", "Fill", "FillFrom", "Sapyb", "FillWide"):
         if act in r.coverage and r.coverage[act][0] == 0:
             raise lib.ModelFailure("MC_ProjDataStore: action %s never taken (vacuous model)" % act)
     # 2. record
@@ -60,11 +62,14 @@ def run(ctx):
             rc1, o1 = lib.run_driver(exe, ["rand", t1, 96 if q else 520, 110 if q else 260, scratch], env=env, timeout=900, allow_fail=True)
             t2 = os.path.join(ctx.work, "exh.ndjson")
             rc2, o2 = lib.run_driver(exe, ["exh", t2, 2 if q else 1000, scratch], env=env, timeout=900, allow_fail=True)
-            traces = [t for t in (t1, t2) if os.path.exists(t) and os.path.getsize(t) > 0]
+            # one more index (beyond the property's statement): MultipleProjData / DynamicProjData
+            t3 = os.path.join(ctx.work, "multi.ndjson")
+            rc3, o3 = lib.run_driver(exe, ["multi", t3, 24 if q else 160, 40 if q else 80, scratch], env=env, timeout=900, allow_fail=True)
+            traces = [t for t in (t1, t2, t3) if os.path.exists(t) and os.path.getsize(t) > 0]
             # a crash outside a call on the store (exit 3, e.g. a corrupted heap found later) is a tooling failure UNLESS the
             # lines recorded before it already contain calls the specification cannot explain (then those are reported)
-            if rc1 != 0 or rc2 != 0:
-                crashed = "driver ended abnormally (rand rc=%d, exh rc=%d)\n%s" % (rc1, rc2, (o1 + o2)[-1500:])
+            if rc1 != 0 or rc2 != 0 or rc3 != 0:
+                crashed = "driver ended abnormally (rand rc=%d, exh rc=%d, multi rc=%d)\n%s" % (rc1, rc2, rc3, (o1 + o2 + o3)[-1500:])
             if not q:
                 # the same kind of histories against the ASan/UBSan-instrumented libraries: a sanitizer report inside a
                 # call is an Abort line, which the specification never accepts
@@ -100,7 +105,7 @@ def run(ctx):
             ctx.traces += 1
             nconf += 1
             cfgr = ex[0]
-            if nconf % 131 == 1:
+            if nconf % 131 == 1 and cfgr["backing"] != "multi":
                 ctx.sample({k: cfgr[k] for k in ("backing", "fresh", "byView", "seq", "off", "type", "big", "minSeg", "maxSeg", "ax",
                                                  "maxView", "minTang", "maxTang", "minTof", "maxTof", "n")})
             for rec in ex[1:]:
@@ -132,9 +137,13 @@ def run(ctx):
         # vacuity guard: the recording must contain every kind of call, accepted and (where out-of-range requests exist) refused
         need = [(e, False) for e in ("SetBin", "SetSino", "SetView", "SetSegV", "SetSegS", "SetRel", "Fill", "FillFrom", "FillIter", "IterSet",
                                      "IterCopy", "GetBin", "GetSino", "GetView", "GetSegV", "GetSegS", "GetRel", "CopyTo", "CloneMem", "Reopen",
-                                     "WriteToFile", "Config:stream", "Config:interfile", "Config:hdrstream", "Config:memory")]
+                                     "WriteToFile", "Config:stream", "Config:interfile", "Config:hdrstream", "Config:memory",
+                                     # round 2: arithmetic / bulk, re-use histories, one more index
+                                     "Xapyb", "XapybV", "Sapyb", "SapybV", "AddPD", "SubPD", "MulPD", "DivPD", "AddF", "SubF", "MulF", "DivF",
+                                     "Stats", "Subset", "FillWide", "StdSeq", "Reattach", "Second", "Config:multi", "MFill", "MCopy", "MGet",
+                                     "MSetSub", "MReplace", "MCalib", "MDivDur", "MRead")]
         need += [(e, True) for e in ("SetBin", "SetSino", "SetView", "SetSegV", "SetSegS", "GetBin", "GetSino", "GetView", "GetSegV", "GetSegS",
-                                     "Config:interfile", "Config:hdrstream")]
+                                     "Config:interfile", "Config:hdrstream", "FillNarrow", "ArithBad")]
         missing = [k for k in need if not seen.get(k)]
         if missing:
             raise lib.ModelFailure("recording is vacuous for %s" % missing)
@@ -148,6 +157,10 @@ def run(ctx):
         "related viewgrams are requested for symmetric segment ranges only (the PET symmetries presuppose them)",
         "requests with an out-of-range SEGMENT are made only where the request can be formed without asking the geometry object about that segment "
         "(single bins, sinograms, get_viewgram, get_segment_by_*)",
+        "arithmetic operations are recorded on stores whose on-disk type holds the results exactly (int, uint, long, ulong, float, double, memory), "
+        "|values| < 2e6; a division always undoes the multiplication made just before it; sum() is compared within the single-precision "
+        "accumulation bound, sums of squares exactly where they fit 32-bit integers",
+        "MultipleProjData/DynamicProjData (one more index) is outside C02's statement: checked as a sequence of stores, reported under C02 only as noted in notes/C02.md",
     ]
     return ctx.finish(rule="one trace = one recorded execution of a real store (one Config line and its history); one evaluation = one recorded call "
                       "(arguments, result, and the whole data file decoded by the independent reader after the call) explained by TLC; "
